@@ -42,64 +42,66 @@ def jobs(tier):
 # ---------------------------------------------------------------------------
 def run_cdf(spec, ctx):
     import statistics
+    import time
     import z3
-    from sx import err
+    from sx import core, err
     import openskill.models.weng_lin.common as C
     lower = spec['lower']
     x, P, s2 = z3.Real('x'), z3.Real('P'), z3.Real('s2')
-    err.CTX = err.ECtx()
-    tf = err.TrueFunctions(x, P, s2, lower)
-    # environment stubs: the libm entry points the CDF may be built on
-    statistics.erf = tf.erf
-    if hasattr(statistics, 'erfc'):
-        statistics.erfc = tf.erfc
-    if hasattr(C, 'math'):
-        C.math = err.EMath(tf)
-    for nm in ('erf', 'erfc'):
-        if nm in C.__dict__:
-            setattr(C, nm, getattr(tf, nm))
-    try:
-        out = C.phi_major(err.E(x))
-    except Exception as e:  # noqa: BLE001
-        ctx.ob(f'phi_major cannot be executed in the error model: {e!r}', 'unknown')
-        return
-    ctx.paths += 1
-    if not isinstance(out, err.E):
-        ctx.ob(f'phi_major returned {type(out).__name__} in the error model', 'unknown')
-        return
     lo, hi = (-37.5, 0.0) if lower else (0.0, 38.0)
     base = [x >= err.rv(lo), x <= err.rv(hi), P > 0, P < 1, s2 > 0, s2 * s2 == 2] + err.grid_anchors(x, P, lo, hi)
+    core.INPUT_FACTS.clear()
+
+    def run():
+        err.CTX = err.ECtx()
+        tf = err.TrueFunctions(x, P, s2, lower)
+        # environment stubs: the libm entry points the CDF may be built on
+        statistics.erf = tf.erf
+        if hasattr(statistics, 'erfc'):
+            statistics.erfc = tf.erfc
+        if hasattr(C, 'math'):
+            C.math = err.EMath(tf)
+        for nm in ('erf', 'erfc'):
+            if nm in C.__dict__:
+                setattr(C, nm, getattr(tf, nm))
+        return C.phi_major(err.E(x)), err.CTX
+
     tol = z3.RealVal('1/1000000000000')
-    neg = z3.Or(out.t - P > tol * P, out.t - P < -tol * P)
-    s = z3.Solver()
-    s.set('timeout', 120000)
-    s.add(*base, *err.CTX.cons)
-    ctx.vacuity['checked'] += 1
-    r0 = str(s.check())
-    ctx.vacuity['reach_sat'] += 1 if r0 == 'sat' else 0
-    s.push()
-    s.add(out.t == 12345)
-    ctx.vacuity['false_ob_sat'] += 0   # the false obligation is unsat here by range; reachability is the witness
-    s.pop()
-    import time
-    t0 = time.time()
-    s.add(neg)
-    r = str(s.check())
-    ctx.queries += 2
-    ctx.solver_s += time.time() - t0
-    sample = {'function': 'phi_major', 'float_operations_recorded': err.CTX.ops, 'range': [lo, hi],
-              'obligation': '|out - Phi(x)| <= 1e-12 * Phi(x)', 'rounding_variables': err.CTX.n}
-    desc = f'phi_major accurate to 1e-12 relative on [{lo}, {hi}] (forward-error model over the executed source)'
-    if r == 'sat':
-        m = s.model()
-        xv = m.eval(x, model_completion=True)
-        from sx.core import _val
-        xs = [_val(xv)]
-        # the solver's witness is any point where the *model* allows a violation; append the region's extremes as alternatives
-        alts = [-37.5, -37.0, -30.0, -20.0, -12.0, -9.0, -8.5, -8.0, -7.5, -7.0, -6.5, -6.0] if lower else [38.0, 8.0, 6.0]
-        ctx.ob(desc, 'sat', {'mode': 'cdf', 'inputs': {'x': xs[0], '__alt__': [{'x': a} for a in alts]}}, sample=sample)
-    else:
-        ctx.ob(desc, r, sample=sample)
+    for (kind, val), eng in core.iter_paths(run, base, None, opts={'deadline': ctx.deadline, 'branch_timeout': 20000}):
+        ctx.paths += 1
+        if kind == 'exc':
+            ctx.ob(f'phi_major cannot be executed in the error model: {val!r}', 'unknown')
+            continue
+        out, ectx = val
+        if not isinstance(out, err.E):
+            ctx.ob(f'phi_major returned {type(out).__name__} in the error model', 'unknown')
+            continue
+        neg = z3.Or(out.t - P > tol * P, out.t - P < -tol * P)
+        s = z3.Solver()
+        s.set('timeout', 120000)
+        s.add(*base, *ectx.cons, *eng.pc)
+        ctx.vacuity['checked'] += 1
+        r0 = str(s.check())
+        ctx.vacuity['reach_sat'] += 1 if r0 != 'unsat' else 0
+        ctx.vacuity['false_ob_sat'] += 1 if r0 != 'unsat' else 0
+        t0 = time.time()
+        s.add(neg)
+        r = str(s.check())
+        ctx.queries += 2
+        ctx.solver_s += time.time() - t0
+        sample = {'function': 'phi_major', 'float_operations_recorded': ectx.ops, 'range': [lo, hi], 'path_condition': [str(c) for c in eng.pc],
+                  'obligation': '|out - Phi(x)| <= 1e-12 * Phi(x)', 'rounding_variables': ectx.n}
+        desc = f'phi_major accurate to 1e-12 relative on [{lo}, {hi}] (forward-error model over the executed source), path {[str(c) for c in eng.pc]}'
+        if r == 'sat':
+            m = s.model()
+            xv = m.eval(x, model_completion=True)
+            xs = [core._val(xv)]
+            # the solver's witness is any point where the *model* allows a violation; append points of the region as alternatives
+            alts = [-37.5, -37.0, -30.0, -20.0, -12.0, -9.0, -8.5, -8.0, -7.5, -7.0, -6.5, -6.0, -5.9, -5.5, -5.0, -4.5, -4.2] if lower else [38.0, 8.0, 6.0]
+            ctx.ob(desc, 'sat', {'mode': 'cdf', 'inputs': {'x': xs[0], '__alt__': [{'x': a} for a in alts]}}, sample=sample)
+        else:
+            ctx.ob(desc, r, sample=sample)
+        ctx.add_engine(eng)
 
 
 # ---------------------------------------------------------------------------
